@@ -105,6 +105,10 @@ impl<'a> ir::Visitor<'a> for ShapeRec {
 }
 #[derive(Default)] struct CountMut { n: usize }
 impl ir::VisitorMut for CountMut { fn visit_instr_mut(&mut self, _: &mut ir::Instr, _: &mut ir::InstrLocId) { self.n += 1; } }
+/// a visitor that MUTATES the control structure during dfs_pre_order_mut: every `block` becomes `unreachable`; the body that is thereby cut off must not be visited
+#[derive(Default)] struct CutBlocks { n: usize }
+impl ir::VisitorMut for CutBlocks { fn visit_instr_mut(&mut self, i: &mut ir::Instr, _: &mut ir::InstrLocId) { self.n += 1; if let ir::Instr::Block(_) = i { *i = ir::Instr::Unreachable(ir::Unreachable {}); } } }
+
 fn bottom_up_twin(m: &mut Module, fid: walrus::FunctionId) -> Option<walrus::FunctionId> {
     use std::collections::HashMap;
     let (params, results) = { let lf = m.funcs.get(fid).kind.unwrap_local(); let t = m.types.get(lf.ty()); (t.params().to_vec(), t.results().to_vec()) };
@@ -256,14 +260,19 @@ pub fn main(args: &[String]) {
         }
         // --- the same functions rebuilt bottom-up through the builder API (C16 / C15)
         { let fids: Vec<walrus::FunctionId> = obs.module.funcs.iter_local().map(|(id, _)| id).collect();
-          for fid in fids { let r = catch(|| -> Option<(Vec<String>, Vec<String>, usize, usize, bool)> { let m = &mut obs.module;
+          for fid in fids { let mut cut_mismatch: Option<(usize, usize)> = None; let r = catch(std::panic::AssertUnwindSafe(|| -> Option<(Vec<String>, Vec<String>, usize, usize, bool)> { let m = &mut obs.module;
                 let twin = bottom_up_twin(m, fid)?;
                 let shape = |m: &Module, f: walrus::FunctionId| { let lf = m.funcs.get(f).kind.unwrap_local(); let mut rec = ShapeRec::default(); dfs_in_order(&mut rec, lf, lf.entry_block()); rec.log };
                 let (a, b2) = (shape(m, fid), shape(m, twin));
                 let count = |m: &mut Module, f: walrus::FunctionId| { let lf = m.funcs.get_mut(f).kind.unwrap_local_mut(); let e = lf.entry_block(); let mut c = CountMut::default(); dfs_pre_order_mut(&mut c, lf, e); c.n };
                 let (ca, cb) = (count(m, fid), count(m, twin));
                 let nested = { let lf = m.funcs.get(twin).kind.unwrap_local(); irdump::seq_ids(lf).len() > 2 };
-                m.funcs.delete(twin); Some((a, b2, ca, cb, nested)) });
+                // the mutating visitor on the twin: what it visits is what is reachable in the tree AS MUTATED (callbacks run before the descent)
+                { let visited = { let lf = m.funcs.get_mut(twin).kind.unwrap_local_mut(); let e = lf.entry_block(); let mut c = CutBlocks::default(); dfs_pre_order_mut(&mut c, lf, e); c.n };
+                  let reachable = { let lf = m.funcs.get(twin).kind.unwrap_local(); let mut rec = ShapeRec::default(); dfs_in_order(&mut rec, lf, lf.entry_block()); rec.log.iter().filter(|e| *e != "S" && *e != "E").count() };
+                  if visited != reachable { cut_mismatch = Some((visited, reachable)); } }
+                m.funcs.delete(twin); Some((a, b2, ca, cb, nested)) }));
+              if let Some((vz, rc)) = cut_mismatch { viol.push(Json::obj(vec![("class", Json::s("dfs_pre_order_mut:visits-sequences-the-visitor-cut-off")), ("props", Json::s("C16")), ("what", Json::s(format!("function id {}: a VisitorMut replaces every block by unreachable in visit_instr_mut; dfs_pre_order_mut then visits {} instructions, {} are reachable in the tree it leaves behind", fid.index(), vz, rc))), ("input", Json::s(crate::c03::hex(&wasm)))])); }
               match r { Some(Some((a, b2, ca, cb, _))) => { if a != b2 { viol.push(Json::obj(vec![("class", Json::s("dfs_in_order:traversal-differs-on-bottom-up-built-tree")), ("props", Json::s("C16 C15")), ("what", Json::s(format!("function id {}: rebuilt bottom-up through the builder API (nested sequences created before their parents) dfs_in_order reports {} events, on the parsed original {}", fid.index(), b2.len(), a.len()))), ("input", Json::s(crate::c03::hex(&wasm))), ("observed", Json::s(b2.join(" "))), ("expected", Json::s(a.join(" ")))])); }
                       if ca != cb { viol.push(Json::obj(vec![("class", Json::s("dfs_pre_order_mut:traversal-differs-on-bottom-up-built-tree")), ("props", Json::s("C16 C15")), ("what", Json::s(format!("function id {}: rebuilt bottom-up dfs_pre_order_mut visits {} instructions, on the parsed original {}", fid.index(), cb, ca))), ("input", Json::s(crate::c03::hex(&wasm)))])); } }
                   Some(None) => {},
